@@ -9,7 +9,7 @@ Not decided: that the counters count the stated relations; the 0..100 range.
 """
 from ..build import AnalysisBroken
 from ..affine import loop_range
-from ..util import site, reaching_sources, const_value
+from ..util import site, reaching_sources, const_value, local_defs
 
 
 def describe(ck):
@@ -273,8 +273,84 @@ def r17c(ck, prog):
             ck.violation("R17c", "R17c/%s/omp" % x.fn.name, site(prog, x), "OpenMP directive `omp %s` in the comparison code" % x.d["omp"], prog.config)
 
 
+def r17e(ck, prog):
+    """each loop of compare_pair that walks the rows of one alignment runs to that alignment's own length: the rows and
+    lengths that belong together are taken from the call in kalign_msa_compare (arguments rooted at the same msa)"""
+    from ..affine import loop_range
+    K, P = prog.fn("kalign_msa_compare"), prog.fn("compare_pair")
+    calls = list(K.body.calls("compare_pair"))
+    if len(calls) != 1:
+        raise AnalysisBroken("R17e slot: kalign_msa_compare calls compare_pair %d time(s)" % len(calls))
+    owner = {}
+    for i, a in enumerate(calls[0].args):
+        roots = [r.d["name"] for r in a.find("DeclRefExpr") if r.ty.replace("const ", "").startswith("struct msa")]
+        if len(set(roots)) == 1 and i < len(P.params):
+            owner[P.params[i]["did"]] = (roots[0], P.params[i]["name"], P.params[i]["ty"])
+    rows = {d: o for d, o in owner.items() if o[2].replace("const ", "").strip() in ("char *", "char*")}
+    lens = {d: o for d, o in owner.items() if o[2].replace("const ", "").strip() == "int"}
+    if len(rows) < 4 or len(lens) < 2:
+        raise AnalysisBroken("R17e slot: row / length parameters of compare_pair not resolved (%d rows, %d lengths)" % (len(rows), len(lens)))
+    n = 0
+    for lp in P.body.find("ForStmt"):
+        rng = loop_range(lp)
+        if rng is None:
+            continue
+        var = rng[0]
+        used_rows = set()
+        for sub in lp.child("body").find("ArraySubscriptExpr"):
+            b, i = sub.kids[0].strip(casts=True), sub.kids[1].strip(casts=True)
+            if b.k == "DeclRefExpr" and b.d["did"] in rows and i.k == "DeclRefExpr" and i.d["name"] == var:
+                used_rows.add(b.d["did"])
+        if not used_rows:
+            continue
+        bound = {r.d["did"] for r in lp.child("cond").find("DeclRefExpr") if r.d["did"] in lens}
+        n += 1
+        ro, lo = {rows[d][0] for d in used_rows}, {lens[d][0] for d in bound}
+        where = site(prog, lp, "loop over %s" % "/".join(sorted(rows[d][1] for d in used_rows)))
+        ck.inst("R17e", where, "compare_pair walks %s (alignment %s) up to %s (alignment %s)" % (
+            sorted(rows[d][1] for d in used_rows), sorted(ro), sorted(lens[d][1] for d in bound), sorted(lo)), prog.config)
+        if not bound:
+            raise AnalysisBroken("R17e: the loop over %s at line %d is not bounded by a length parameter" % (sorted(rows[d][1] for d in used_rows), lp.line))
+        if ro != lo:
+            ck.violation("R17e", "R17e/compare_pair/%s" % "+".join(sorted(rows[d][1] for d in used_rows)), where,
+                         "compare_pair walks %s, rows of alignment '%s', up to %s, the length of alignment '%s': when the two alignments "
+                         "have different numbers of columns the relations of the longer one are cut off (score too low) or the shorter one "
+                         "is read past its end" % (sorted(rows[d][1] for d in used_rows), "/".join(sorted(ro)), sorted(lens[d][1] for d in bound), "/".join(sorted(lo))),
+                         prog.config)
+    ck.floor("R17e", n, 2, "row-walking loops of compare_pair")
+
+
+def r17f(ck, prog):
+    """the score is computed in double precision from the integer counters: the value stored through the score pointer and
+    every local it is computed from have type double and no float-typed operand (100.0f * a rounds to 24 bits before the
+    division: identical alignments then score 100.000008 or 99.9999924)"""
+    K = prog.fn("kalign_msa_compare")
+    outs = [a for a in K.body.find("BinaryOperator") if a.d["op"] == "=" and a.kids[0].strip().k == "UnaryOperator" and a.kids[0].strip().d["op"] == "*"
+            and a.kids[0].strip().kids[0].strip(casts=True).k == "DeclRefExpr" and a.kids[0].strip().kids[0].strip(casts=True).d.get("dk") == "Parm"
+            and a.kids[0].strip().ty in ("float", "double")]
+    if not outs:
+        raise AnalysisBroken("R17f slot: the store through the score pointer was not found in kalign_msa_compare")
+    n = 0
+    for a in outs:
+        exprs = [a.kids[1]]
+        for r in a.kids[1].find("DeclRefExpr"):
+            if r.d.get("dk") == "Var" and not r.d.get("g"):
+                exprs += [d for d, _ in local_defs(K, r.d["did"]) if d is not None]
+                exprs.append(r)
+        narrow = [x for e in exprs for x in e.walk() if x.ty in ("float", "const float") and x.k not in ("ImplicitCastExpr",)]
+        n += 1
+        where = site(prog, a, "score")
+        ck.inst("R17f", where, "*score = %s: %d sub-expression(s), %d of type float" % (a.kids[1].text()[:40], sum(1 for e in exprs for _ in e.walk()), len(narrow)), prog.config)
+        if narrow:
+            ck.violation("R17f", "R17f/kalign_msa_compare/float", site(prog, narrow[0], "float"),
+                         "the score is computed with single-precision operands (%s): the counters exceed 2^24 on ordinary alignments, "
+                         "so identical alignments no longer score exactly 100" % narrow[0].text()[:40], prog.config)
+
+
 def run(ck, progs):
     describe(ck)
+    ck.rule("R17e", "each row-walking loop of compare_pair is bounded by the length of the alignment its rows belong to (pairing taken from the call site)")
+    ck.rule("R17f", "the score is computed in double precision: no float-typed operand on the way from the counters to *score")
     ck.rule("R17d", "uniqueness check and row-matching order compare names with the same function over the same span")
     ck.rule("R17c", "files with a gap anywhere are recognised as alignments (gap total covers every sequence, = R04b) and the counting loop is not distributed over threads")
     for cfg, prog in progs.items():
@@ -282,6 +358,8 @@ def run(ck, progs):
         ck.attempt(r17b, ck, prog)
         ck.attempt(r17c, ck, prog)
         ck.attempt(r17d, ck, prog)
+        ck.attempt(r17e, ck, prog)
+        ck.attempt(r17f, ck, prog)
     return ("CFG dominance of both sort calls over the pairing loop, argument pairing and loop ranges of the compare_pair "
             "call, field read set of the row-matching comparator; classification of compare_pair's counters by the row "
             "parameters their loops scan, and reaching definitions of numerator and denominator of the stored score.")
